@@ -22,7 +22,7 @@ theorem fnVal_concat (vs : List Val) : fnVal "concat" vs = concatAllVal vs := by
   simp [fnVal]
 
 /-- operators whose value is not given by `binVal`: the divisions and the LIKE family -/
-def specialOp (op : Op) : Bool := coreDiv op || likeOp op
+def specialOp (op : Op) : Bool := coreDiv op || likeOp op || inOp op || btwOp op
 
 theorem coreBin_not_div {op : Op} (h : coreBin op = true) : specialOp op = false := by
   cases op <;> simp [coreBin] at h <;> rfl
@@ -33,13 +33,26 @@ theorem coreList_not_div {op : Op} (h : coreList op = true) : specialOp op = fal
 theorem evalCore_binary (env : String → Val) (d : Dialect) (op : Op) (l r : SaExpr) (n : Option Op)
     (esc : Option String) (ty : Ty) (h : specialOp op = false) :
     evalCore env d (.binary op l r n esc ty) = binVal op (evalCore env d l) (evalCore env d r) := by
-  cases op <;> simp [specialOp, coreDiv, likeOp] at h <;> rfl
+  cases op <;> simp [specialOp, coreDiv, likeOp, inOp, btwOp] at h <;> rfl
 
 theorem evalCore_like (env : String → Val) (d : Dialect) (op : Op) (l r : SaExpr) (n : Option Op)
     (esc : Option String) (ty : Ty) (h : likeOp op = true) :
     evalCore env d (.binary op l r n esc ty) =
       likeVal d op esc (evalCore env d l) (evalCore env d r) := by
   cases op <;> simp [likeOp] at h <;> rfl
+
+theorem evalCore_in (env : String → Val) (d : Dialect) (op : Op) (l : SaExpr) (vs : List Lit)
+    (lty : Ty) (eo : Op) (n : Option Op) (esc : Option String) (ty : Ty) (h : inOp op = true) :
+    evalCore env d (.binary op l (.inlist vs lty eo) n esc ty) =
+      ofTV (if op = .in_op then evalIn (evalCore env d l) (vs.map litVal)
+            else evalNotIn (evalCore env d l) (vs.map litVal)) := by
+  cases op <;> simp [inOp] at h <;> rfl
+
+theorem evalCore_btw (env : String → Val) (d : Dialect) (op : Op) (l lo hi : SaExpr) (cty : Ty)
+    (n : Option Op) (esc : Option String) (ty : Ty) (h : btwOp op = true) :
+    evalCore env d (.binary op l (.clist .and_ [lo, hi] false false cty) n esc ty) =
+      btwVal (decide (op = .not_between_op)) (evalCore env d l) [evalCore env d lo, evalCore env d hi] := by
+  cases op <;> simp [btwOp] at h <;> rfl
 
 theorem not3_not3 (t : TV) : not3 (not3 t) = t := by
   cases t with
@@ -180,6 +193,16 @@ theorem items_chain_comma (env : String → Val) (gs : List G) (vs : List Val) (
     simp only [List.map_cons] at this
     rw [← List.flatten_cons, this, items_map_s]
 
+/-- the rendered literal list `v₁, …, vₙ` denotes the list of its values -/
+theorem items_litListG (env : String → Val) (d : Dialect) (vs : List Lit) (h : vs ≠ []) :
+    (evalG (stdI env) (litListG d true vs)).items = vs.map litVal := by
+  unfold litListG
+  apply items_chain_comma env _ _ (by cases vs <;> simp at h ⊢)
+  rw [List.map_map, List.map_map]
+  apply List.map_congr_left
+  intro v _
+  exact atom_lit env d v
+
 theorem items_whenChain (env : String → Val) : ∀ (n : Nat) (gs : List G) (acc : G), gs.length = 2 * n →
     (evalG (stdI env) (whenChain acc gs)).items
       = (evalG (stdI env) acc).items ++ (gs.map (fun g => (evalG (stdI env) g).items)).flatten
@@ -284,9 +307,33 @@ theorem evalG_render (env : String → Val) (d : Dialect) :
     rw [evalG_render env d e (by simpa [Core] using hc)]
     rfl
   | .binary op l r n esc ty, hc => by
-    obtain ⟨hcl, hcr, hk⟩ := core_binary hc
-    rcases hk with ⟨hbd, _⟩ | ⟨hlk, _, _⟩
-    case inr =>
+    obtain ⟨hcl, hk⟩ := core_binary hc
+    rcases hk with ⟨hbd, _, hcr⟩ | ⟨hlk, _, _, hcr⟩ | ⟨hin, _, hir⟩ | ⟨hbo, _, hbr⟩
+    case inr.inr.inr =>
+      obtain ⟨lo, hi, cty, he, hclo, hchi, _, _⟩ := coreBtw_cases hbr
+      subst he
+      obtain ⟨t, heq⟩ := render_btw d true op l lo hi cty n esc ty hbo
+      rw [heq, evalCore_btw env d op l lo hi cty n esc ty hbo]
+      have hl := evalG_render env d l hcl
+      have h1 := evalG_render env d lo hclo
+      have h2 := evalG_render env d hi hchi
+      cases op <;> simp [btwOp] at hbo
+      · simp only [evalG, hl, h1, h2]; rfl
+      · simp only [evalG, hl, h1, h2]; rfl
+    case inr.inr.inl =>
+      obtain ⟨vs, lty, he, hne⟩ := inRight_cases hir
+      subst he
+      rw [render_inNode d true op l vs lty n esc ty hin hne, evalCore_in env d op l vs lty op n esc ty hin]
+      have hl := evalG_render env d l hcl
+      have hi := items_litListG env d vs hne
+      cases op <;> simp [inOp] at hin
+      · show stdInf .in_ (evalG (stdI env) (render d true l)) (evalG (stdI env) (litListG d true vs)) = _
+        rw [hl]
+        simp only [stdInf, SV.scalar, hi, if_true]
+      · show stdInf .notIn (evalG (stdI env) (render d true l)) (evalG (stdI env) (litListG d true vs)) = _
+        rw [hl]
+        simp [stdInf, SV.scalar, hi]
+    case inr.inl =>
       obtain ⟨t, heq⟩ := render_like d true op l r n esc ty hlk
       rw [heq, evalCore_like env d op l r n esc ty hlk]
       exact evalG_likeG env d op t _ _ _ _ esc hlk (evalG_render env d l hcl) (evalG_render env d r hcr)
@@ -589,8 +636,8 @@ theorem constructForOp_eval (env : String → Val) (d : Dialect) (l r : SaExpr) 
     by_cases hf : (operatorOf l = some op ∧ ty = tyOf l) ∨ (operatorOf r = some op ∧ ty = tyOf r)
     · simp only [hf, if_true]
       obtain ⟨hcL, hb⟩ := assoc_coreBin_coreList hop ha
-      obtain ⟨fl, fln⟩ := flattened_core l hcl hwl
-      obtain ⟨fr, frn⟩ := flattened_core r hcr hwr
+      obtain ⟨fl, fln⟩ := flattened_core op hcL l hcl hwl
+      obtain ⟨fr, frn⟩ := flattened_core op hcL r hcr hwr
       simp only [constructForList, evalCore]
       rw [evalCoreList_map_selfGroup env d op (Or.inr trivial)]
       · rw [evalCoreList_append, foldVals_append op hcL]
@@ -614,10 +661,10 @@ theorem constructForOp_eval (env : String → Val) (d : Dialect) (l r : SaExpr) 
         refine ⟨?_, Or.inl hb⟩
         rcases hc with hc | hc
         · split at hc
-          · exact (fl c hc).1
+          · rename_i h1; exact (fl h1.1 c hc).1
           · simp at hc; subst hc; exact hcl
         · split at hc
-          · exact (fr c hc).1
+          · rename_i h1; exact (fr h1.1 c hc).1
           · simp at hc; subst hc; exact hcr
     · simp only [hf, if_false]
       exact mkBinary_eval env d l r op ty n hop hcl hcr
@@ -640,8 +687,14 @@ def soundPair (op n : Op) : Prop :=
 /-- the negate operator recorded on a top-level binary is its true negation -/
 def negSound : SaExpr → Prop
   | .binary op _ _ (some n) _ _ =>
-    if likeOp op then likePair op n = true else (soundPair op n ∧ soundPair n op)
+    if likeOp op then likePair op n = true
+    else if inOp op then inPair op n = true
+    else if btwOp op then btwPair op n = true
+    else (soundPair op n ∧ soundPair n op)
   | _ => True
+
+theorem inOp_btw_false {op : Op} (h : btwOp op = true) : inOp op = false := by
+  cases op <;> simp [btwOp] at h <;> rfl
 
 theorem coreBin_not_like {op : Op} (h : coreBin op = true) : likeOp op = false := by
   cases op <;> simp [coreBin] at h <;> rfl
@@ -694,28 +747,38 @@ theorem negate_eval (env : String → Val) (d : Dialect) (e : SaExpr) (h : BoolE
     cases n with
     | none => simp [boolShape] at hsh
     | some n =>
-      obtain ⟨hcl, hcr, hk⟩ := core_binary hc
-      simp only [negate, negateInBinary_core r n op hcr]
+      obtain ⟨hcl, hk⟩ := core_binary hc
       simp only [boolShape, Bool.or_eq_true, Bool.and_eq_true] at hsh
-      rcases hsh with hsh | hsh
+      rcases hsh with ((hsh | hsh) | hsh) | hsh
       · have he : esc = none := by cases esc <;> simp at hsh ⊢
         subst he
         have hlf := coreBin_not_like hsh.1.1
         have hlf' := coreBin_not_like hsh.1.2
-        simp only [negSound, hlf, Bool.false_eq_true, if_false] at hs
+        have hif := coreBin_not_in hsh.1.1
+        have hif' := coreBin_not_in hsh.1.2
+        have hbf := coreBin_not_btw hsh.1.1
+        have hbf' := coreBin_not_btw hsh.1.2
+        have hcr : Core r = true := by
+          rcases hk with ⟨_, _, h⟩ | ⟨hl, _, _, _⟩ | ⟨hi, _, _⟩ | ⟨hb, _, _⟩
+          · exact h
+          · rw [hlf] at hl; cases hl
+          · rw [hif] at hi; cases hi
+          · rw [hbf] at hb; cases hb
+        simp only [negate, negateInBinary_core r n op hcr]
+        simp only [negSound, hlf, hif, hbf, Bool.false_eq_true, if_false] at hs
         refine ⟨?_, ?_⟩
         · rw [mkBinary_eval env d l r n ty (some op) hsh.1.2 hcl hcr,
             evalCore_binary env d op l r (some n) none ty (coreBin_not_div hsh.1.1)]
           exact hs.1 _ _
-        · simp only [mkBinary, negSound, hlf', Bool.false_eq_true, if_false]
+        · simp only [mkBinary, negSound, hlf', hif', hbf', Bool.false_eq_true, if_false]
           exact ⟨hs.2, hs.1⟩
-      · have hlo : likeOp op = true := by
-          cases op <;> cases n <;> simp [likePair] at hsh <;> rfl
-        have hln : likeOp n = true ∧ likePair n op = true := by
-          cases op <;> cases n <;> simp [likePair] at hsh <;> exact ⟨rfl, rfl⟩
-        rcases hk with ⟨hbd, _⟩ | ⟨_, cl, cr⟩
+      · have hlo : likeOp op = true := (likePair_ops hsh).1
+        have hln : likeOp n = true ∧ likePair n op = true := (likePair_ops hsh).2
+        rcases hk with ⟨hbd, _, _⟩ | ⟨_, cl, cr, hcr⟩ | ⟨hi, _, _⟩ | ⟨hb, _, _⟩
+        case inr.inr.inr => rw [btwOp_not_like hb] at hlo; cases hlo
         · rw [coreBinD_not_like hbd] at hlo; cases hlo
-        · have hbn : boolCtx n = false := like_not_boolCtx hln.1
+        · simp only [negate, negateInBinary_core r n op hcr]
+          have hbn : boolCtx n = false := like_not_boolCtx hln.1
           rw [show mkBinary l r n ty (some op) esc = .binary n l r (some op) esc ty from by
             simp only [mkBinary, selfGroup_closed n l cl hbn, selfGroup_closed n r cr hbn]]
           refine ⟨?_, ?_⟩
@@ -724,6 +787,55 @@ theorem negate_eval (env : String → Val) (d : Dialect) (e : SaExpr) (h : BoolE
             exact likeVal_neg d op n esc _ _ hsh
           · simp only [negSound, hln.1, if_true]
             exact hln.2
+        · rw [inOp_not_like hi] at hlo; cases hlo
+      · have hio : inOp op = true := (inPair_ops hsh.1).1
+        have hin : inOp n = true ∧ inPair n op = true := (inPair_ops hsh.1).2
+        rcases hk with ⟨hbd, _, _⟩ | ⟨hl, _, _, _⟩ | ⟨_, _, hir⟩ | ⟨hb, _, _⟩
+        case inr.inr.inr => rw [inOp_not_btw hio] at hb; cases hb
+        · rw [coreBinD_not_in hbd] at hio; cases hio
+        · rw [inOp_not_like hio] at hl; cases hl
+        · obtain ⟨vs, lty, hr, hne⟩ := inRight_cases hir
+          subst hr
+          have hbn : boolCtx n = false := by
+            cases n <;> simp [inOp] at hin <;> rfl
+          have hsg : selfGroup (some n) (SaExpr.inlist vs lty n) = .inlist vs lty n := by
+            simp [selfGroup, wouldGroup]
+          simp only [negate, negateInBinary, if_true, mkBinary, hsg]
+          refine ⟨?_, ?_⟩
+          · rw [evalCore_in env d n _ vs lty n (some op) esc ty hin.1,
+              evalCore_in env d op l vs lty op (some n) esc ty hio,
+              selfGroup_eval env d n l hcl (Or.inl hbn)]
+            have hp := hsh.1
+            simp only [inPair, Bool.or_eq_true, Bool.and_eq_true, decide_eq_true_eq] at hp
+            rcases hp with ⟨h1, h2⟩ | ⟨h1, h2⟩ <;> subst h1 <;> subst h2 <;>
+              simp [truth_ofTV, evalNotIn, not3_not3]
+          · simp only [negSound, inOp_not_like hin.1, hin.1, Bool.false_eq_true, if_false, if_true]
+            exact hin.2
+      · have hbo : btwOp op = true := (btwPair_ops hsh.1).1
+        have hbn : btwOp n = true ∧ btwPair n op = true := (btwPair_ops hsh.1).2
+        rcases hk with ⟨hbd, _, _⟩ | ⟨hl, _, _, _⟩ | ⟨hi, _, _⟩ | ⟨_, _, hbr⟩
+        · rw [coreBinD_not_btw hbd] at hbo; cases hbo
+        · rw [btwOp_not_like hbo] at hl; cases hl
+        · rw [inOp_not_btw hi] at hbo; cases hbo
+        · obtain ⟨lo, hi, cty, hr, hclo, hchi, _, _⟩ := coreBtw_cases hbr
+          subst hr
+          have hbc : boolCtx n = false := by
+            cases n <;> simp [btwOp] at hbn <;> rfl
+          have hsg : selfGroup (some n) (SaExpr.clist .and_ [lo, hi] false false cty) =
+              .clist .and_ [lo, hi] false false cty := by
+            cases n <;> simp [btwOp] at hbn <;> simp [selfGroup, wouldGroup]
+          simp only [negate, negateInBinary, mkBinary, hsg]
+          refine ⟨?_, ?_⟩
+          · rw [evalCore_btw env d n _ lo hi cty (some op) esc ty hbn.1,
+              evalCore_btw env d op l lo hi cty (some n) esc ty hbo,
+              selfGroup_eval env d n l hcl (Or.inl hbc)]
+            have hp := hsh.1
+            simp only [btwPair, Bool.or_eq_true, Bool.and_eq_true, decide_eq_true_eq] at hp
+            rcases hp with ⟨h1, h2⟩ | ⟨h1, h2⟩ <;> subst h1 <;> subst h2 <;>
+              simp [btwVal, truth_ofTV, not3_not3]
+          · simp only [negSound, btwOp_not_like hbn.1, inOp_btw_false hbn.1, hbn.1, Bool.false_eq_true,
+              if_false, if_true]
+            exact hbn.2
   | clist op cs gr bl ty =>
     simp only [negate]
     refine ⟨?_, trivial⟩
@@ -873,7 +985,7 @@ theorem boolConstruct_multi_eval (env : String → Val) (d : Dialect) (operator 
     obtain ⟨cy, wy, _⟩ := selfGroup_core operator x bx.core bx.wg (Or.inr (hna x hx))
     apply evalCoreList_ne_nil
     split
-    · exact (flattened_core _ cy wy).2
+    · exact (flattened_core operator hcl _ cy wy).2
     · simp
 
 /-- **boolConstruct_eval**: `and_(*clauses)` evaluates to the n-ary AND of the clauses
@@ -923,6 +1035,8 @@ def noIsGen : U → Bool
     !((k = .is_ || k = .isnot) && (match b with | .null => false | _ => true)) &&
       noIsGen a && noIsGen b
   | .like _ _ a b => noIsGen a && noIsGen b
+  | .inOp _ _ x => noIsGen x
+  | .between x lo hi => noIsGen x && noIsGen lo && noIsGen hi
   | .not_ a => noIsGen a
   | .neg a => noIsGen a
   | .cast _ a => noIsGen a
@@ -998,7 +1112,8 @@ theorem negSound_construct (x y : SaExpr) (op n : Op) (hop : coreBin op = true)
     (hna : associative op = false) (hsp : soundPair op n ∧ soundPair n op) :
     negSound (constructForOp x y op .bool (some n) none) := by
   unfold constructForOp
-  simp only [hna, Bool.false_eq_true, if_false, mkBinary, negSound, coreBin_not_like hop]
+  simp only [hna, Bool.false_eq_true, if_false, mkBinary, negSound, coreBin_not_like hop,
+    coreBin_not_in hop, coreBin_not_btw hop]
   exact hsp
 
 end SaVerif.Expr
@@ -1477,12 +1592,75 @@ theorem build_bool_eval (env : String → Val) (d : Dialect) : ∀ (u : U) (e : 
         · simp only [negSound, hl, if_true]
           exact hp
   | .neg _, _, hu, _, _ => by simp [BoolU] at hu
-  | .between _ _ _, _, hu, _, _ => by simp [BoolU] at hu
+  | .between x lo hi, e, hu, hn, hb => by
+    simp only [BoolU, Bool.and_eq_true] at hu
+    simp only [noIsGen, Bool.and_eq_true] at hn
+    simp only [build] at hb
+    cases hx : build x with
+    | none => simp [hx] at hb
+    | some x' =>
+      cases hl : build lo with
+      | none => simp [hx, hl] at hb
+      | some lo' =>
+        cases hh : build hi with
+        | none => simp [hx, hl, hh] at hb
+        | some hi' =>
+          simp only [hx, hl, hh, Option.some.injEq] at hb
+          subst hb
+          have nx := build_num x x' hu.1.1 hx
+          have ex := build_num_eval env d x x' hu.1.1 hn.1.1 hx
+          have el := build_num_eval env d lo lo' hu.1.2 hn.1.2 hl
+          have eh := build_num_eval env d hi hi' hu.2 hn.2 hh
+          have hsg : selfGroup (some .between_op) (SaExpr.clist .and_ [lo', hi'] false false .null) =
+              .clist .and_ [lo', hi'] false false .null := by simp [selfGroup, wouldGroup]
+          simp only [betweenImpl, mkBinary, hsg]
+          refine ⟨?_, ?_⟩
+          · rw [evalCore_btw env d .between_op _ lo' hi' .null (some .not_between_op) none .null rfl,
+              selfGroup_eval env d .between_op x' nx.core (Or.inl rfl), ex, el, eh]
+            simp [btwVal, truth_ofTV, evalBoolU]
+          · simp [negSound, likeOp, inOp, btwOp, btwPair]
   | .case_ _ _ _, _, hu, _, _ => by simp [BoolU] at hu
   | .cast _ _, _, hu, _, _ => by simp [BoolU] at hu
   | .coalesce _, _, hu, _, _ => by simp [BoolU] at hu
   | .subq _ _, _, hu, _, _ => by simp [BoolU] at hu
-  | .inOp _ _ _, _, hu, _, _ => by simp [BoolU] at hu
+  | .inOp negated vals x, e, hu, hn, hb => by
+    simp only [BoolU, Bool.and_eq_true, Bool.or_eq_true, Bool.not_eq_true'] at hu
+    simp only [noIsGen] at hn
+    simp only [build] at hb
+    cases hx : build x with
+    | none => simp [hx] at hb
+    | some x' =>
+      simp only [hx] at hb
+      have nx : OpndE x' := by
+        rcases hu.2 with h | h
+        · exact (build_num x x' h hx).opnd
+        · exact (build_str x x' h hx).1
+      have ex : evalCore env d x' = evalNumU env d x := by
+        rcases hu.2 with h | h
+        · exact build_num_eval env d x x' h hn hx
+        · exact build_str_eval env d x x' h hn hx
+      obtain ⟨hin, hna, n, hneg, hp⟩ := in_facts negated
+      have hbc : booleanCompare x' (if negated then Op.not_in_op else Op.in_op)
+          (.inlist vals (inListTy x' vals) (if negated then Op.not_in_op else Op.in_op))
+          (negateOp (if negated then Op.not_in_op else Op.in_op)) none =
+          some (constructForOp x' (.inlist vals (inListTy x' vals) (if negated then Op.not_in_op else Op.in_op))
+            (if negated then Op.not_in_op else Op.in_op) .bool
+            (negateOp (if negated then Op.not_in_op else Op.in_op)) none) := rfl
+      rw [hbc, hneg] at hb
+      simp only [Option.some.injEq] at hb
+      subst hb
+      have hbn : boolCtx (if negated then Op.not_in_op else Op.in_op) = false := by
+        cases negated <;> rfl
+      have hsg : ∀ op, selfGroup (some op) (SaExpr.inlist vals (inListTy x' vals) op) =
+          .inlist vals (inListTy x' vals) op := by
+        intro op; simp [selfGroup, wouldGroup]
+      simp only [constructForOp, hna, Bool.false_eq_true, if_false, mkBinary, hsg]
+      refine ⟨?_, ?_⟩
+      · rw [evalCore_in env d _ _ vals _ _ (some n) none .bool hin,
+          selfGroup_eval env d _ x' nx.core (Or.inl hbn), ex]
+        cases negated <;> simp [evalBoolU, truth_ofTV]
+      · simp only [negSound, inOp_not_like hin, hin, Bool.false_eq_true, if_false, if_true]
+        exact hp
   | .tupleIn _ _ _, _, hu, _, _ => by simp [BoolU] at hu
   | .pi _, _, hu, _, _ => by simp [BoolU] at hu
   | .ps _, _, hu, _, _ => by simp [BoolU] at hu
